@@ -9,6 +9,9 @@
 package main
 
 import (
+	"crypto/sha256"
+	"encoding/json"
+	"go/printer"
 	"flag"
 	"fmt"
 	"go/ast"
@@ -259,7 +262,11 @@ func (t *tr) stmts(ss []ast.Stmt, depth int) string {
 func main() {
 	repo := flag.String("repo", "/repo", "")
 	out := flag.String("out", "", "")
+	facts := flag.String("facts", "", "write structural facts (hashes of functions that the harness mirrors by hand) to this file")
 	flag.Parse()
+	if *facts != "" {
+		writeFacts(*repo, *facts)
+	}
 	if *out == "" {
 		fmt.Fprintln(os.Stderr, "need -out")
 		os.Exit(2)
@@ -395,4 +402,61 @@ func main() {
 	if bad {
 		os.Exit(2)
 	}
+}
+
+// ---- structural facts ------------------------------------------------------------------------------
+// The harness mirrors a few functions by hand because they cannot run in the virtual-time bubble (the main
+// loop of App.Run: lock file, signal handler; the construction of zkDCS in NewZookeeper: DNS, TCP, TLS).
+// Their printed AST (comments stripped) is hashed; the check compares the hashes with /verif/expect_facts.json,
+// so that an edit of these functions is noticed instead of silently leaving the harness copy behind.
+
+var factFuncs = []struct{ file, recv, name string }{
+	{"internal/app/app.go", "App", "Run"},
+	{"internal/dcs/zk.go", "", "NewZookeeper"},
+	{"internal/app/app.go", "App", "connectDCS"},
+	{"internal/app/app.go", "App", "newDBCluster"},
+}
+
+func writeFacts(repo, out string) {
+	res := map[string]string{}
+	for _, ff := range factFuncs {
+		fset := token.NewFileSet()
+		f, err := parser.ParseFile(fset, filepath.Join(repo, ff.file), nil, 0)
+		if err != nil {
+			fmt.Fprintln(os.Stderr, "gen: facts:", err)
+			os.Exit(2)
+		}
+		key := ff.name
+		if ff.recv != "" {
+			key = ff.recv + "." + ff.name
+		}
+		for _, d := range f.Decls {
+			fd, ok := d.(*ast.FuncDecl)
+			if !ok || fd.Name.Name != ff.name {
+				continue
+			}
+			recv := ""
+			if fd.Recv != nil && len(fd.Recv.List) == 1 {
+				switch x := fd.Recv.List[0].Type.(type) {
+				case *ast.StarExpr:
+					if id, ok := x.X.(*ast.Ident); ok {
+						recv = id.Name
+					}
+				case *ast.Ident:
+					recv = x.Name
+				}
+			}
+			if recv != ff.recv {
+				continue
+			}
+			var b strings.Builder
+			_ = printer.Fprint(&b, token.NewFileSet(), fd)
+			res[key] = fmt.Sprintf("%x", sha256.Sum256([]byte(b.String())))
+		}
+		if _, ok := res[key]; !ok {
+			res[key] = "MISSING"
+		}
+	}
+	data, _ := json.MarshalIndent(res, "", " ")
+	_ = os.WriteFile(out, data, 0o644)
 }
